@@ -203,6 +203,11 @@ func runC01(r *Run) {
 				_, e = genNestedQuantOn(d)
 			}
 			c := evalCase{expr: e, d: d, tag: "bexpr"}
+			if rng.Pct(30) { // an unknown value that is itself a JSON value: the interpreter substitutes it for absent members
+				c.unkSet = true
+				c.unk = pick(rng, []interface{}{nil, "a", 1.0, true, json.Number("3"), json.Number("1.5"), []interface{}{1.0, "a"}, map[string]interface{}{"k": 1.0}, "", 0.0})
+				r.Count("json-unknown:set")
+			}
 			if !c.parse() {
 				r.Count("generator:unparseable")
 				continue
